@@ -9,8 +9,10 @@ META = dict(
     stubs=["vf/engine.py", "process death is modelled on persistent state only: at the selected persistence event a BaseException is raised and "
            "the cache root is copied *as it is at that instant*; the resubmission (fresh Submitter and Job objects) runs against that copy",
            "a result/job file whose write was in flight is left truncated (2 bytes, a quarter, half, or all but the last byte of the real pickle - symbolic choice)"],
-    outside=["'does not block forever on a lock left by the dead process': stale lock files are deleted from the snapshot (filelock's "
-             "stale-lock handling lives in the OS/PID table) - this clause is NOT claimed", "crashes of SLURM/SGE wrapper processes",
+    outside=["'does not block forever on a lock left by the dead process': in the crash-point conditions stale lock files are deleted "
+             "from the snapshot; the clause itself is covered by h_stale_lock only for a lock file that is an hour old and empty, "
+             "holds the pid of a dead process or garbage (filelock's real stale-lock handling, run outside the tracer); locks of live "
+             "processes and younger malformed locks are outside", "crashes of SLURM/SGE wrapper processes",
              "truncation at byte offsets other than 2 bytes, a quarter, half and all-but-one byte of the file", "crashes between two file-system operations inside third-party code"],
     assumptions=["persistent state changes only at save(), record_error() and directory operations, so crash points between two of these "
                  "are covered by the earlier one"],
